@@ -1,6 +1,5 @@
 import Ebv.Driver.Io
 import Ebv.Model.SlowCycle
-import Ebv.Props.C30
 open Ebv Ebv.Io Ebv.SlowCycle Ebv.Bytes Lean
 
 /-- `[0, start, n, signed]` = struct variable of n bytes, `[1, start, k, _]` = bit k -/
@@ -70,6 +69,6 @@ def step (j : Json) : Option String := do
     | _ => none
   pure (joinSp (st.sent.map hexOfBytes) ++ " | " ++ ";".intercalate (st.seen.map (showSeen insSpec))
         ++ " | " ++ toString st.errors ++ " | " ++ toString st.missed
-        ++ " | layout=" ++ (if decide (Ebv.C30.Layout cfg asm.length) then "1" else "0"))
+        ++ " | layout=" ++ (if decide (Layout cfg asm.length) then "1" else "0"))
 
 def main : IO Unit := driverMain step
